@@ -36,6 +36,11 @@ def run(ctx):
              % (io_impls or 'nothing'), None, key='LOAD|Y2|io-impls')
     rest = [b_ for b_ in fx.bodies if b_ not in load and b_ not in entry and b_.kind != 'promoted' and not b_.name.startswith('asefile::util::')]
     iorules.reader_dependent_state(ctx, rest, 'Y2b')
+    # .. and nothing is carried from one load to the next (seed C14-t parked chunk buffers in a thread-local: a load after a failed one
+    # started with stale bytes) - C16's rule on statics and thread-locals, here as Y2
+    import C16 as _c16s
+    import rule as _Rs
+    _c16s.static_state_rules(_Rs.View(ctx, {'S2': 'Y2s', 'S3': 'Y2', 'S4': 'Y2s', 'S5': 'Y2s'}), fx, [])
 
     # ---------- Y3a: constructions of IoError
     sites = []
